@@ -159,10 +159,21 @@ def run_body(body, defines_wl, max_ticks=400):
     cpu = m.cpu
     dd = cpu.devices['data']
     n = 0
+    # ijmp / ret / retv take their target from the stack.  The only address the
+    # test frame ever puts there is the return address of the call in the
+    # prologue; a transfer to any other address is a jump to an absolute code
+    # position that is not a label.  What happens then depends on the layout of
+    # the code (which every rewrite legitimately changes), so the run stops
+    # there with the outcome 'wild-jump' on both sides.
+    ret_addr = 1 + 4                      # call <label> is 5 bytes long
+    indirect = {op_to_instr[o].op_code for o in ('ijmp', 'ret', 'retv')}
     try:
         while n < max_ticks and not cpu.halted and cpu.pc < len(module.code):
+            op = module.code[cpu.pc] if 0 <= cpu.pc < len(module.code) else None
             cpu.tick()
             n += 1
+            if op in indirect and not cpu.halted and cpu.last_trap is None and cpu.pc != ret_addr:
+                return ['wild-jump', state_out(cpu, p, dd)[12]]
     except BaseException as e:  # noqa
         return ['host-exc', type(e).__name__]
     st = state_out(cpu, p, dd)
